@@ -1,2 +1,113 @@
-//! rigs: drive the library through the in-memory physical layer
+//! rigs: drive the library through the in-memory physical layer, on a current-thread runtime with a paused clock
 pub mod exec;
+pub mod outstation;
+
+use std::future::Future;
+use std::pin::Pin;
+use std::sync::atomic::{AtomicU64, Ordering};
+use std::sync::Arc;
+use std::task::{Context, Poll};
+
+/// number of polls of all wrapped library tasks of the current rig
+#[derive(Clone, Default)]
+pub struct Polls(pub Arc<AtomicU64>);
+
+impl Polls {
+    pub fn get(&self) -> u64 {
+        self.0.load(Ordering::Relaxed)
+    }
+}
+
+/// polls of one library task at the same virtual instant before it is declared a busy loop
+pub const SPIN_LIMIT: u64 = 300_000;
+
+/// wraps a library task: counts polls (quiescence detection) and detects yielding busy loops
+pub struct Counted<F> {
+    inner: Pin<Box<F>>,
+    polls: Polls,
+    last_now: tokio::time::Instant,
+    same_instant: u64,
+}
+
+impl<F: Future> Counted<F> {
+    pub fn new(inner: F, polls: Polls) -> Self {
+        Counted { inner: Box::pin(inner), polls, last_now: tokio::time::Instant::now(), same_instant: 0 }
+    }
+}
+
+impl<F: Future> Future for Counted<F> {
+    type Output = F::Output;
+    fn poll(mut self: Pin<&mut Self>, cx: &mut Context<'_>) -> Poll<F::Output> {
+        self.polls.0.fetch_add(1, Ordering::Relaxed);
+        let now = tokio::time::Instant::now();
+        if now == self.last_now {
+            self.same_instant += 1;
+            if self.same_instant > SPIN_LIMIT {
+                panic!("verif-spin: library task polled {} times without virtual time advancing", self.same_instant);
+            }
+        } else {
+            self.last_now = now;
+            self.same_instant = 0;
+        }
+        self.inner.as_mut().poll(cx)
+    }
+}
+
+/// let every library task run until none of them is runnable; virtual time does not move
+pub async fn settle(polls: &Polls) {
+    let mut quiet = 0;
+    for _ in 0..2_000_000u32 {
+        let before = polls.get();
+        tokio::task::yield_now().await;
+        if polls.get() == before {
+            quiet += 1;
+            if quiet >= 2 {
+                return;
+            }
+        } else {
+            quiet = 0;
+        }
+    }
+    panic!("verif-spin: system never became quiescent");
+}
+
+pub fn runtime() -> tokio::runtime::Runtime {
+    tokio::runtime::Builder::new_current_thread().enable_time().start_paused(true).build().expect("runtime")
+}
+
+/// install (once per process) a tracing subscriber that formats every event into a sink, so that the
+/// decode/Display code of the library really runs at the generated decode levels
+pub fn init_tracing() {
+    static ONCE: std::sync::Once = std::sync::Once::new();
+    ONCE.call_once(|| {
+        let sub = tracing_subscriber::fmt().with_max_level(tracing::Level::TRACE).with_writer(std::io::sink).with_ansi(false).finish();
+        let _ = tracing::subscriber::set_global_default(sub);
+    });
+}
+
+pub fn decode_level(app: u8, transport: u8, link: u8, phys: u8) -> crate::decode::DecodeLevel {
+    use crate::decode::*;
+    DecodeLevel::new(
+        match app % 4 {
+            0 => AppDecodeLevel::Nothing,
+            1 => AppDecodeLevel::Header,
+            2 => AppDecodeLevel::ObjectHeaders,
+            _ => AppDecodeLevel::ObjectValues,
+        },
+        match transport % 3 {
+            0 => TransportDecodeLevel::Nothing,
+            1 => TransportDecodeLevel::Header,
+            _ => TransportDecodeLevel::Payload,
+        },
+        match link % 3 {
+            0 => LinkDecodeLevel::Nothing,
+            1 => LinkDecodeLevel::Header,
+            _ => LinkDecodeLevel::Payload,
+        },
+        match phys % 3 {
+            0 => PhysDecodeLevel::Nothing,
+            1 => PhysDecodeLevel::Length,
+            _ => PhysDecodeLevel::Data,
+        },
+    )
+}
